@@ -9,7 +9,8 @@ EXTRA = ["x", "X", "#", "$", "%", "~", "!", "@", "^", "&", "*"]
 
 @st.composite
 def tm_specs(draw, max_states=5, sigma=None, halting_initial=True, pool=POOL):
-    n = draw(st.integers(2, max_states))
+    # Q = working states + reject + accept; at least one working state (with n == 2 the initial state would be the rejecting state)
+    n = draw(st.integers(3, max(3, max_states)))
     Q = draw(names(n, pool))
     S = list(sigma) if sigma is not None else draw(st.sampled_from([["a"], ["a", "b"], ["0", "1"], []]))
     blank = draw(st.sampled_from(BLANKS))
@@ -18,6 +19,9 @@ def tm_specs(draw, max_states=5, sigma=None, halting_initial=True, pool=POOL):
     q0 = Q[0]
     if halting_initial and draw(st.integers(0, 11)) == 0:
         q0 = draw(st.sampled_from([acc, rej]))
+        if draw(st.booleans()):
+            Q = [rej, acc]          # no working states at all
+            n = 2
     d = []
     for p in Q:
         if p in (acc, rej):
@@ -36,6 +40,8 @@ def walker_tm_specs(draw, lengths=(150, 450, 950, 1100)):
     """Machines that need many steps on short words: a chain of k states walks k cells to the right and then accepts
     (or rejects / keeps running on a self loop), whatever it reads."""
     k = draw(st.sampled_from(list(lengths)))
+    if k >= 900 and draw(st.booleans()):
+        k = draw(st.integers(990, 1010))         # around the default budget of 1000 steps
     S = draw(st.sampled_from([["a"], ["a", "b"]]))
     blank = draw(st.sampled_from(BLANKS))
     G = S + [blank]
@@ -50,3 +56,82 @@ def walker_tm_specs(draw, lengths=(150, 450, 950, 1100)):
     if first_reject:
         d = [t for t in d if not (t[0] == Q[0] and t[1] == S[1])]     # words starting with the second symbol are rejected at once (missing transition)
     return {"Q": Q, "S": S, "G": G, "d": d, "q0": Q[0], "acc": "yes", "rej": "no", "blank": blank}
+
+
+# ---- textbook machines: many steps, left moves, bouncing at the left end, blank writes ----
+
+def _anbn(blank):
+    X, Y = "X", "Y"
+    d = [["s0", "a", "s1", X, "R"], ["s0", Y, "s3", Y, "R"], ["s0", blank, "yes", blank, "R"],
+         ["s1", "a", "s1", "a", "R"], ["s1", Y, "s1", Y, "R"], ["s1", "b", "s2", Y, "L"],
+         ["s2", "a", "s2", "a", "L"], ["s2", Y, "s2", Y, "L"], ["s2", X, "s0", X, "R"],
+         ["s3", Y, "s3", Y, "R"], ["s3", blank, "yes", blank, "R"]]
+    return {"Q": ["s0", "s1", "s2", "s3", "yes", "no"], "S": ["a", "b"], "G": ["a", "b", blank, X, Y], "d": d,
+            "q0": "s0", "acc": "yes", "rej": "no", "blank": blank}
+
+
+def _left_bouncer(blank, k, explicit_reject):
+    """walk right to the first blank, make k+1 left moves (bouncing at cell 0 when the word is shorter), accept iff the cell read then holds 'a'"""
+    G = ["a", "b", blank]
+    Q = ["r"] + ["l%d" % i for i in range(k + 1)] + ["yes", "no"]
+    d = [["r", "a", "r", "a", "R"], ["r", "b", "r", "b", "R"], ["r", blank, "l0", blank, "L"]]
+    for i in range(k):
+        d += [["l%d" % i, g, "l%d" % (i + 1), g, "L"] for g in G]
+    d.append(["l%d" % k, "a", "yes", "a", "R"])
+    if explicit_reject:
+        d.append(["l%d" % k, "b", "no", "b", "L"])
+    return {"Q": Q, "S": ["a", "b"], "G": G, "d": d, "q0": "r", "acc": "yes", "rej": "no", "blank": blank}
+
+
+def _eraser(blank, back):
+    """overwrite the word with blanks, walk `back` cells back over the blanks, write a symbol, accept"""
+    G = ["a", "b", blank]
+    Q = ["e"] + ["f%d" % i for i in range(back + 1)] + ["yes", "no"]
+    d = [["e", "a", "e", blank, "R"], ["e", "b", "e", blank, "R"], ["e", blank, "f0", blank, "L"]]
+    for i in range(back):
+        d.append(["f%d" % i, blank, "f%d" % (i + 1), blank, "L"])
+    d.append(["f%d" % back, blank, "yes", "a", "L"])
+    return {"Q": Q, "S": ["a", "b"], "G": G, "d": d, "q0": "e", "acc": "yes", "rej": "no", "blank": blank}
+
+
+def _spinner(blank, period):
+    """never halts: cycles through `period` states moving right and left alternately"""
+    G = ["a", blank]
+    Q = ["c%d" % i for i in range(period)] + ["yes", "no"]
+    d = []
+    for i in range(period):
+        for g in G:
+            d.append(["c%d" % i, g, "c%d" % ((i + 1) % period), g, "R" if i % 2 == 0 else "L"])
+    return {"Q": Q, "S": ["a"], "G": G, "d": d, "q0": "c0", "acc": "yes", "rej": "no", "blank": blank}
+
+
+@st.composite
+def textbook_tm_specs(draw):
+    blank = draw(st.sampled_from(BLANKS))
+    k = draw(st.integers(0, 5))
+    if k == 0:
+        spec = _anbn(blank)
+    elif k == 1:
+        spec = _left_bouncer(blank, draw(st.integers(0, 6)), draw(st.booleans()))
+    elif k == 2:
+        spec = _eraser(blank, draw(st.integers(0, 4)))
+    elif k == 3:
+        spec = _spinner(blank, draw(st.integers(1, 4)))
+    elif k == 4:
+        spec = draw(walker_tm_specs(lengths=(3, 7, 20, 60)))
+    else:
+        spec = draw(tm_specs(max_states=5, sigma=["a", "b"], halting_initial=False))
+    if draw(st.integers(0, 3)) == 0 and spec["d"]:
+        # drop or redirect one transition: the machine is no longer the textbook one, the oracle decides
+        spec = dict(spec, d=[list(t) for t in spec["d"]])
+        i = draw(st.integers(0, len(spec["d"]) - 1))
+        if draw(st.booleans()):
+            del spec["d"][i]
+        else:
+            spec["d"][i][4] = "L" if spec["d"][i][4] == "R" else "R"
+    if len(spec["Q"]) <= 10 and draw(st.integers(0, 2)) == 0:
+        # rename the states (numbered / ambiguous name pools)
+        new = draw(names(len(spec["Q"]), POOL))
+        m = dict(zip(spec["Q"], new))
+        spec = dict(spec, Q=new, d=[[m[p], a, m[q], b, mv] for p, a, q, b, mv in spec["d"]], q0=m[spec["q0"]], acc=m[spec["acc"]], rej=m[spec["rej"]])
+    return spec
